@@ -50,7 +50,62 @@ def cases(tier):
     out = []
     for i in range(0, len(cs), 25):
         out.append({"name": "ops/%d" % i, "c02": cs[i:i + 25]})
+    out.append({"name": "shared-seed", "shared_seed": True})
     return out
+
+
+SHARED_SEED_PROGS = ["x.backward(g); y.backward(g)", "a = x * 2.0; b = y * 3.0; a.backward(g); b.backward(g)", "x.backward(g); b = y * 3.0; b.backward(g)"]
+SHARED_SEED_REPLAY = """import sys
+import numpy as np
+import mygrad as mg
+bad = []
+for src in %r:
+    x, y, g = mg.Tensor([1.0, 2.0, 3.0]), mg.Tensor([4.0, 5.0, 6.0]), np.array([0.5, 1.5, 2.5])
+    env = {"mg": mg, "np": np, "x": x, "y": y, "g": g}
+    exec(src, env)
+    T = {n: t for n, t in env.items() if isinstance(t, mg.Tensor) and t.grad is not None}
+    names = sorted(T)
+    for i, n1 in enumerate(names):
+        for n2 in names[i + 1:]:
+            if np.shares_memory(T[n1].grad, T[n2].grad) and not np.shares_memory(T[n1].data, T[n2].data): bad.append((src, n1, n2))
+print(bad)
+print('REPRODUCED' if bad else 'NOT-REPRODUCED'); sys.exit(1 if bad else 0)
+"""
+
+
+def run_shared_seed(mg):
+    """two back-propagations seeded with ONE caller-owned array: the gradients of the two (unrelated) terminals must not share memory"""
+    res = common.new_result()
+    findings = []
+    for src in SHARED_SEED_PROGS:
+        lib.reset_state()
+        x, y = mg.Tensor(symarr("x", (3,))), mg.Tensor(symarr("y", (3,)))
+        g = symarr("g", (3,))
+        guid = _uids(g)
+        env = {"mg": mg, "np": np, "x": x, "y": y, "g": g}
+        exec(src, env)
+        res["paths"] += 1
+        T = {n: t for n, t in env.items() if isinstance(t, mg.Tensor) and t.grad is not None}
+        for n1, n2 in itertools.combinations(sorted(T), 2):
+            if np.shares_memory(T[n1].grad, T[n2].grad) and not np.shares_memory(T[n1].data, T[n2].data):
+                findings.append("`%s`: %s.grad and %s.grad share memory although the tensors do not" % (src, n1, n2))
+        if _uids(g) != guid:
+            findings.append("`%s`: the seed array was changed" % src)
+    lib.reset_state()
+    if findings:
+        sig = "shared-seed:two-terminals-alias"
+        known = common.match_known(common.load_known(PROP), sig)
+        path = common.write_replay(PROP, "shared_seed", SHARED_SEED_REPLAY % (SHARED_SEED_PROGS,))
+        ok, out = common.run_replay(path, count=known is None)
+        if ok:
+            if known is None:
+                res["status"] = common.VIOLATION
+            res["violations"].append({"signature": sig, "replay": path, "summary": "; ".join(findings[:3])})
+        else:
+            res["status"] = common.INCONCLUSIVE
+            res["notes"].append("did not reproduce: %s" % findings[:2])
+    res["sample"] = {"programs": SHARED_SEED_PROGS}
+    return res
 
 
 def _uids(a):
@@ -268,6 +323,8 @@ print('REPRODUCED' if bad else 'NOT-REPRODUCED'); sys.exit(1 if bad else 0)
 
 def run_case(spec, tier):
     mg = common._WORKER["mg"]
+    if spec.get("shared_seed"):
+        return run_shared_seed(mg)
     res = common.new_result()
     res["ops_checked"] = 0
     for cs in spec["c02"]:
